@@ -59,6 +59,11 @@ _triple = st.one_of(
     st.tuples(_value, _value, _value),
     _value.flatmap(lambda v: st.tuples(st.just(v), _mutations(v), _mutations(v))),
     st.tuples(_scalar, _scalar, _scalar),
+    # dicts over one key set, written in different insertion orders, with permuted values
+    st.tuples(st.sampled_from([['a', 'b'], ['a', 'b', 'c'], ['b', 'c']]), st.lists(st.one_of(st.integers(0, 2), _nan, _str), min_size=3, max_size=3),
+              st.permutations([0, 1, 2]), st.permutations([0, 1, 2]), st.permutations([0, 1, 2]), st.permutations([0, 1, 2])).map(
+        lambda t: [['dict', [[t[0][i % len(t[0])], t[1][j]] for i, j in zip(ko[:len(t[0])], vo)]] for ko, vo in
+                   (([0, 1, 2], [0, 1, 2]), (sorted(range(len(t[0])), key=lambda i: t[2][i]), t[3]), (sorted(range(len(t[0])), key=lambda i: t[4][i]), t[5]))]),
     # prefix-related sequences of different lengths: x = base + [a], y = base, z = base + [b]
     st.tuples(st.sampled_from(['list', 'tuple']), st.lists(_scalar, max_size=2), _scalar, _scalar, st.permutations([0, 1, 2])).map(
         lambda t: [[[t[0], t[1] + [t[2]]], [t[0], t[1]], [t[0], t[1] + [t[3]]]][i] for i in t[4]]),
